@@ -251,5 +251,27 @@ class C07(Check):
                             required=f"{want_cls.__name__}(code={code})")
         return None
 
+    def bounded_stand_in(self, tier, undecided):
+        """errors.py / the error branch of _process_response outside the interpreted subset: the real functions on every
+        integer code in a stated range (all named codes lie inside it) x {message present, absent}"""
+        keys = ("errors.py::is_retryable_error", "send_message.py::_process_response")
+        if not any(k in u for u in undecided for k in keys):
+            return []
+        lo, hi = (-40000, 40000) if tier == "thorough" else (-33100, -31900)
+        codes = list(range(lo, hi + 1)) + [-1, 0, 1, 2 ** 31, -2 ** 63]
+        n = 0
+        for code in codes:
+            for name, model in (("is_retryable_error", {"code": code}),
+                                ("_process_response", {"error": {"code": code, "message": "m"}}),
+                                ("_process_response", {"error": {"code": code}})):
+                n += 1
+                r = self.replay(name, model, None)
+                if r and r.get("reproduced"):
+                    r["name"] = name
+                    r["bound"] = f"integer codes {lo}..{hi} and five outliers"
+                    return [r]
+        return [dict(name="error_classification", reproduced=False, cases=n, covers="|".join(keys),
+                     bound=f"every integer code in {lo}..{hi} and five outliers x message present/absent (bounded, not a proof)")]
+
 
 CHECK = C07()
